@@ -144,6 +144,8 @@ func c02Context() map[string]stick.Value {
 		"str": gen.ValStringer{S: "st"}, "safe": stick.NewSafeValue("<b>", "html"), "tm": time.Date(2021, 3, 4, 5, 6, 7, 0, time.UTC), "nilm": map[string]stick.Value(nil),
 		"mnan": map[float64]string{math.NaN(): "a", 1: "b"}, "mif": map[interface{}]stick.Value{"a": 1, 2: "b", nil: 3, math.NaN(): 4, [2]int{1, 2}: 5}, "mbool": map[bool]int{true: 1, false: 0},
 		"enil": gen.EmbedsIfaces{}, "enilp": &gen.EmbedsIfaces{}, "eptr": gen.EmbedsStringerPtr{Tag: "t"}, "onilp": &gen.OuterPtr{Extra: 8},
+		// maps whose keys are pointers to (or hold) values that contain themselves
+		"mpk": map[*gen.OuterIface]int{cyclicStruct(): 1}, "mpk2": map[*gen.OuterIface]int{{Any: cyclicMap()}: 1, nil: 2}, "mik": map[interface{}]int{cyclicStruct(): 1, &gen.OuterIface{Any: cyclicSlice()}: 2},
 		"mptr": &map[string]stick.Value{"a": 1}, "mst": map[gen.Inner]int{{Name: "x", N: 1}: 1},
 	}
 }
